@@ -466,11 +466,13 @@ def run_census(ctx, rule, root_defs, F, reviews, prop_id, label, only=None, extr
                     parts = inner.split(",")
                     consts = sorted(x for x in parts if x.lstrip("-").isdigit())
                     return consts, len(parts) - len(consts)
+                def _selfs(detail):
+                    return sorted(x for x in detail[len("overflow_add("):-1].split(",") if x.startswith("self."))
                 for k2, rv2 in reviews.items():
                     if rv2.get("guard") or k2 in all_keys or _key_top(k2) != top_new:
                         continue
                     sh2 = _shape(k2)
-                    if sh2[0] == "assert" and sh2[1].startswith("overflow_add(") and _ops(sh2[1]) == _ops(shp[1]):
+                    if sh2[0] == "assert" and sh2[1].startswith("overflow_add(") and (_ops(sh2[1]) == _ops(shp[1]) or (_selfs(shp[1]) and _selfs(sh2[1]) == _selfs(shp[1]))):
                         moved = (k2, rv2)
                         break
             if moved is not None:
